@@ -18,7 +18,7 @@ LEVEL_NOTE = ("Trusted: Lean kernel (+ standard axioms); hand model of __array_u
               "applies a ufunc's inner loop position-independently on a flat buffer; numpy's promotion rules (the finite dtype x dtype x "
               "operand-kind table is enumerated by the correspondence, completely in the thorough tier).")
 TECHNIQUE = "Lean 4 proof of row-wise action and of the XOR broadcast for all shapes; numpy-evaluated correspondence for dtypes"
-DESIGN_REF = "6.4"
+DESIGN_REF = "7"
 LEAN_MODULES = ["NpsVerif.Props.C04"]
 KERNELS = ()
 RULE = ("cases = ragged shape (exhaustive <=3x3 + random) x operand kind (unary, scalar python/numpy, (n_rows,1) column, ragged same "
